@@ -757,4 +757,196 @@ def specStruct (m : StructM) (st : St F) : List MaskedIntRegNode × St F :=
   let es := listS specEntry m.entries r.2
   maskedOfEntries r.1 (m.endianness.getD .le) es.1 es.2
 
+/-! ## Name-level normal forms (references as the declared names)
+
+`…V` mirrors the node structs with node ids replaced by names; `view st` reads a parsed
+struct through the interner of `st`; `pure…` is the normal form of an abstract declaration
+with the schema defaults and the declared names.  `refs_resolve_*` (Props): the view of what
+the parser produced is the pure normal form — every reference resolves to the declared name. -/
+
+inductive ImmOrPV (α : Type) where
+  | imm (a : α)
+  | pnode (n : Str)
+  deriving DecidableEq, Repr
+
+inductive AddressV where
+  | address (a : ImmOrPV Int)
+  | intSwissKnife (n : Str)
+  | pIndex (offset : Option (ImmOrPV Int)) (p : Str)
+  deriving DecidableEq, Repr
+
+structure AttrV where
+  name : Str
+  nameSpace : NameSpace
+  mergePriority : MergePriority
+  exposeStatic : Option Bool
+  deriving DecidableEq, Repr
+
+structure ElemV where
+  tooltip : Option Str
+  description : Option Str
+  displayName : Option Str
+  visibility : Visibility
+  docuUrl : Option Str
+  isDeprecated : Bool
+  eventId : Option Nat
+  pIsImplemented : Option Str
+  pIsAvailable : Option Str
+  pIsLocked : Option Str
+  pBlockPolling : Option Str
+  imposedAccessMode : AccessMode
+  pErrors : List Str
+  pAlias : Option Str
+  pCastAlias : Option Str
+  pInvalidators : List Str
+  deriving DecidableEq, Repr
+
+structure RegV where
+  elemBase : ElemV
+  streamable : Bool
+  addressKinds : List AddressV
+  length : ImmOrPV Int
+  accessMode : AccessMode
+  pPort : Str
+  cacheable : CachingMode
+  pollingTime : Option Nat
+  pInvalidators : List Str
+  deriving DecidableEq, Repr
+
+structure MaskedV where
+  attr : AttrV
+  reg : RegV
+  bitMask : BitMask
+  sign : Sign
+  endianness : Endianness
+  unit : Option Str
+  representation : IntRepr
+  pSelected : List Str
+  deriving DecidableEq, Repr
+
+/-- `NodeStore::name_by_id` -/
+def nameOf (st : St F) (id : Nat) : Str := st.names.getD id []
+
+def ImmOrP.view {α : Type} (st : St F) : ImmOrP α → ImmOrPV α
+  | .imm a => .imm a
+  | .pnode id => .pnode (nameOf st id)
+
+def AddressKind.view (st : St F) : AddressKind → AddressV
+  | .address a => .address (a.view st)
+  | .intSwissKnife id => .intSwissKnife (nameOf st id)
+  | .pIndex p => .pIndex (p.offset.map (ImmOrP.view st)) (nameOf st p.pIndex)
+
+def AttrBase.view (st : St F) (a : AttrBase) : AttrV :=
+  ⟨nameOf st a.id, a.nameSpace, a.mergePriority, a.exposeStatic⟩
+
+def ElemBase.view (st : St F) (e : ElemBase) : ElemV :=
+  { tooltip := e.tooltip, description := e.description, displayName := e.displayName
+    visibility := e.visibility, docuUrl := e.docuUrl, isDeprecated := e.isDeprecated
+    eventId := e.eventId
+    pIsImplemented := e.pIsImplemented.map (nameOf st)
+    pIsAvailable := e.pIsAvailable.map (nameOf st)
+    pIsLocked := e.pIsLocked.map (nameOf st)
+    pBlockPolling := e.pBlockPolling.map (nameOf st)
+    imposedAccessMode := e.imposedAccessMode
+    pErrors := e.pErrors.map (nameOf st)
+    pAlias := e.pAlias.map (nameOf st)
+    pCastAlias := e.pCastAlias.map (nameOf st)
+    pInvalidators := e.pInvalidators.map (nameOf st) }
+
+def RegBase.view (st : St F) (r : RegBase) : RegV :=
+  { elemBase := r.elemBase.view st, streamable := r.streamable
+    addressKinds := r.addressKinds.map (AddressKind.view st)
+    length := r.length.view st, accessMode := r.accessMode, pPort := nameOf st r.pPort
+    cacheable := r.cacheable, pollingTime := r.pollingTime
+    pInvalidators := r.pInvalidators.map (nameOf st) }
+
+def MaskedIntRegNode.view (st : St F) (n : MaskedIntRegNode) : MaskedV :=
+  { attr := n.attr.view st, reg := n.reg.view st, bitMask := n.bitMask, sign := n.sign
+    endianness := n.endianness, unit := n.unit, representation := n.representation
+    pSelected := n.pSelected.map (nameOf st) }
+
+def pureAttr (m : AttrM) : AttrV :=
+  ⟨m.name, m.nameSpace.getD .custom, m.mergePriority.getD .mid, m.exposeStatic.map BoolLit.val⟩
+
+def pureElem (m : ElemM) (pInvalidators : List Str) : ElemV :=
+  { tooltip := m.tooltip, description := m.description, displayName := m.displayName
+    visibility := m.visibility.getD .beginner, docuUrl := m.docuUrl
+    isDeprecated := (m.isDeprecated.map BoolLit.val).getD false
+    eventId := m.eventId.map HexLit.val
+    pIsImplemented := m.pIsImplemented, pIsAvailable := m.pIsAvailable, pIsLocked := m.pIsLocked
+    pBlockPolling := m.pBlockPolling, imposedAccessMode := m.imposedAccessMode.getD .rw
+    pErrors := m.pErrors, pAlias := m.pAlias, pCastAlias := m.pCastAlias
+    pInvalidators := pInvalidators }
+
+def pureIR : IR IntLit → ImmOrPV Int
+  | .imm l => .imm l.val
+  | .ref n => .pnode n.name
+
+def pureAddr : AddrM → AddressV
+  | .address l => .address (.imm l.val)
+  | .pAddress n => .address (.pnode n.name)
+  | .pIndex none p => .pIndex none p
+  | .pIndex (some (.inl l)) p => .pIndex (some (.imm l.val)) p
+  | .pIndex (some (.inr n)) p => .pIndex (some (.pnode n)) p
+
+def pureReg (m : RegM) : RegV :=
+  { elemBase := pureElem m.elem [], streamable := (m.streamable.map BoolLit.val).getD false
+    addressKinds := m.addrs.map pureAddr, length := pureIR m.length
+    accessMode := m.accessMode.getD .ro, pPort := m.pPort
+    cacheable := m.cacheable.getD .writeThrough, pollingTime := m.pollingTime.map UintLit.val
+    pInvalidators := m.pInvalidators }
+
+def pureMasked (m : MaskedM) : MaskedV :=
+  { attr := pureAttr m.attr, reg := pureReg m.reg, bitMask := m.bitMask.val
+    sign := m.sign.getD .unsigned, endianness := m.endianness.getD .le, unit := m.unit
+    representation := m.representation.getD .pureNumber, pSelected := m.pSelected }
+
+/-! ### the desugared twin of a StructReg -/
+
+/-- entry's declaration if present, else the structure's -/
+def inherit {α : Type} (entry struct : Option α) : Option α :=
+  match entry with
+  | some x => some x
+  | none => struct
+
+/-- entry's list if it declares any, else the structure's -/
+def inheritList {α : Type} (entry struct : List α) : List α :=
+  match entry with
+  | [] => struct
+  | _ => entry
+
+/-- The `MaskedIntReg` declaration equivalent to entry `e` of structure `s`: every property the
+entry declares overrides the structure's, every other one is inherited (GenICam 2.8.7);
+address, length, port and endianness are the structure's. -/
+def twin (s : StructM) (e : EntryM) : MaskedM :=
+  { attr := e.attr
+    reg :=
+      { elem :=
+          { extension := none
+            tooltip := inherit e.elem.tooltip s.reg.elem.tooltip
+            description := inherit e.elem.description s.reg.elem.description
+            displayName := inherit e.elem.displayName s.reg.elem.displayName
+            visibility := inherit e.elem.visibility s.reg.elem.visibility
+            docuUrl := inherit e.elem.docuUrl s.reg.elem.docuUrl
+            isDeprecated := inherit e.elem.isDeprecated s.reg.elem.isDeprecated
+            eventId := inherit e.elem.eventId s.reg.elem.eventId
+            pIsImplemented := inherit e.elem.pIsImplemented s.reg.elem.pIsImplemented
+            pIsAvailable := inherit e.elem.pIsAvailable s.reg.elem.pIsAvailable
+            pIsLocked := inherit e.elem.pIsLocked s.reg.elem.pIsLocked
+            pBlockPolling := inherit e.elem.pBlockPolling s.reg.elem.pBlockPolling
+            imposedAccessMode := inherit e.elem.imposedAccessMode s.reg.elem.imposedAccessMode
+            pErrors := inheritList e.elem.pErrors s.reg.elem.pErrors
+            pAlias := inherit e.elem.pAlias s.reg.elem.pAlias
+            pCastAlias := inherit e.elem.pCastAlias s.reg.elem.pCastAlias }
+        streamable := inherit e.streamable s.reg.streamable
+        addrs := s.reg.addrs
+        length := s.reg.length
+        accessMode := inherit e.accessMode s.reg.accessMode
+        pPort := s.reg.pPort
+        cacheable := inherit e.cacheable s.reg.cacheable
+        pollingTime := inherit e.pollingTime s.reg.pollingTime
+        pInvalidators := inheritList e.pInvalidators s.reg.pInvalidators }
+    bitMask := e.bitMask, sign := e.sign, endianness := s.endianness, unit := e.unit
+    representation := e.representation, pSelected := e.pSelected }
+
 end CamVerif.XmlParse
